@@ -23,6 +23,7 @@ def _nibbles(bits):
 def nibble_block(syms, idx=0, extra_tables=None, selectors=None):
     """Block over USED14 whose symbols (0..15; 15 = EOB last) are coded with 4-bit codes."""
     tt, r, plain = bzfmt.symbols_plain(syms, USED14, idx)
+    bzfmt.unrle(r)                      # raises ValueError when the block would end without a run count
     crc = bzfmt.bzcrc(plain)
     tables = [[4] * 16, [4] * 16] if extra_tables is None else extra_tables
     ng = (len(syms) + 49) // 50
@@ -59,7 +60,7 @@ def long_candidate_header(n2):
     b += [0] + [1, 0] * (n2 - 1)
     for _ in range(2):
         w = bzfmt.table_bits([4] * 16)
-        b += _bits(w.n, w.acc)
+        b += _bits(w.n, w.value)
     assert len(b) % 4 == 0
     nib = _nibbles(b)
     assert 15 not in nib and 0 not in nib[:0]
@@ -149,6 +150,7 @@ def byte_block(payload, idx=0):
     assert 0xFF not in payload
     syms = list(payload) + [256]
     tt, r, plain = bzfmt.symbols_plain(syms, USED255, idx % max(1, 1))
+    bzfmt.unrle(r)
     crc = bzfmt.bzcrc(plain)
     ng = (len(syms) + 49) // 50
     bw = bzfmt.block_writer(syms, USED255, 0, [LENS257, LENS257], [0] * ng, crc)
